@@ -5,7 +5,7 @@
    without '\n'; the reader follows ANY schedule [sch] of read sizes. *)
 From Coq Require Import ZArith List Bool.
 From RM Require Import Base.Word C08.Model C11.Model C09.Model C09.Grammar C09.Driver C09.Proofs C09.ProofsBytes C09.ProofsFinish C09.ProofsFinal C09.ProofsTrace C09.Circular C09.ProofsCircular C09.ProofsLines C09.ProofsTable.
-From RM Require C09.Pins C09.PinsMem C08.Proofs C09.PinsNum Gen.C09Numeric C09.ProofsText C09.ProofsRecord C09.ProofsRecord2 C09.ProofsRecord3 C09.ProofsRecord4 C09.ProofsRecord5 C09.ProofsRecord6 C09.ProofsRecord7.
+From RM Require C09.Pins C09.PinsMem C08.Proofs C09.PinsNum Gen.C09Numeric C09.ProofsText C09.ProofsRecord C09.ProofsRecord2 C09.ProofsRecord3 C09.ProofsRecord4 C09.ProofsRecord5 C09.ProofsRecord6 C09.ProofsRecord7 C09.PinsLines Gen.C09Lines.
 Import ListNotations.
 Open Scope Z_scope.
 
@@ -781,3 +781,47 @@ Proof.
   split; [intros ps it; apply ProofsRecord7.alt_some|]. split; [intros ps; apply ProofsRecord7.alt_none|reflexivity].
 Qed.
 Print Assumptions c09_record_dispatch.
+
+(* The line recognisers of Grammar.v are the interpretation of what a fourth translator (translate/c09_lines.py ->
+   Gen/C09Lines.v) reads off the nom parsers of parser.rs: the keyword of `terminated(tag(..), space1)`, whether the fields are
+   under `cut`, the order and kind of the field parsers inside `tuple((..))` (vocabulary: decimal_u32 / hex_str::<u64> /
+   hex_str::<u32> followed by space1, opt(m), name + my_eol, not_my_eol + my_eol, non_space + space1, hex_digit1 + space1,
+   decimal_u32 + my_eol, bare hex_str::<u32>), and the order of the alternatives of `line()`.  An edit to a keyword, to the
+   position of `cut`, to a field or to the order of fields / alternatives changes Gen/C09Lines.v and breaks these equalities
+   (stack_win_line and inline_line have bodies outside the translator's template and stay hand-written). *)
+Theorem c09_line_parsers_are_source :
+  forall s : rle,
+    p_module s = match PinsLines.run_desc C09Lines.module_line_desc s with
+                 | POk ([PinsLines.VStr id; PinsLines.VStr f], _) => POk (IModule id f) | POk _ => PFail | PFail => PFail | PErr => PErr end /\
+    p_info_url s = match PinsLines.run_desc C09Lines.info_url_desc s with
+                   | POk ([PinsLines.VStr u], _) => POk (IUrl u) | POk _ => PFail | PFail => PFail | PErr => PErr end /\
+    p_info s = match PinsLines.run_desc C09Lines.info_line_desc s with
+               | POk ([], _) => POk IInfo | POk _ => PFail | PFail => PFail | PErr => PErr end /\
+    p_file s = match PinsLines.run_desc C09Lines.file_line_desc s with
+               | POk ([PinsLines.VNum id; PinsLines.VStr n], _) => POk (IFile id n) | POk _ => PFail | PFail => PFail | PErr => PErr end /\
+    p_inline_origin s = match PinsLines.run_desc C09Lines.inline_origin_line_desc s with
+               | POk ([PinsLines.VNum id; PinsLines.VStr n], _) => POk (IOrigin id n) | POk _ => PFail | PFail => PFail | PErr => PErr end /\
+    p_public s = match PinsLines.run_desc C09Lines.public_line_desc s with
+               | POk ([PinsLines.VNum a; PinsLines.VNum ps; PinsLines.VStr n], _) => POk (IPublic (mk_pubs a n ps)) | POk _ => PFail
+               | PFail => PFail | PErr => PErr end /\
+    p_func s = match PinsLines.run_desc C09Lines.func_line_desc s with
+               | POk ([PinsLines.VNum a; PinsLines.VNum sz; PinsLines.VNum ps; PinsLines.VStr n], _) => POk (IFunc (mk_fr a sz ps n [] []))
+               | POk _ => PFail | PFail => PFail | PErr => PErr end /\
+    p_stack_cfi_init s = match PinsLines.run_desc C09Lines.stack_cfi_init_desc s with
+               | POk ([PinsLines.VNum a; PinsLines.VNum sz; PinsLines.VStr r], _) => POk (ICfiInit (mk_cfi (mk_rule a r) sz []))
+               | POk _ => PFail | PFail => PFail | PErr => PErr end /\
+    sub_cfi s = match PinsLines.run_desc C09Lines.stack_cfi_desc s with
+                | POk ([PinsLines.VNum a; PinsLines.VStr r], _) => Some (mk_rule a r) | _ => None end /\
+    sub_line_data s = match PinsLines.run_desc C09Lines.func_line_data_desc s with
+                | POk ([PinsLines.VNum a; PinsLines.VNum sz; PinsLines.VNum ln; PinsLines.VNum fl], _) => Some (mk_line a sz fl ln)
+                | _ => None end /\
+    addr_range s = match PinsLines.run_desc C09Lines.inline_address_range_desc s with
+                | POk ([PinsLines.VNum a; PinsLines.VNum sz], s') => Some (a, sz, s') | _ => None end /\
+    line_top s = alt (map PinsLines.parser_of C09Lines.line_alt_order) s.
+Proof.
+  intros s. split; [apply PinsLines.pin_module|]. split; [apply PinsLines.pin_info_url|]. split; [apply PinsLines.pin_info|].
+  split; [apply PinsLines.pin_file|]. split; [apply PinsLines.pin_inline_origin|]. split; [apply PinsLines.pin_public|].
+  split; [apply PinsLines.pin_func|]. split; [apply PinsLines.pin_stack_cfi_init|]. split; [apply PinsLines.pin_stack_cfi|].
+  split; [apply PinsLines.pin_func_line_data|]. split; [apply PinsLines.pin_addr_range|apply PinsLines.pin_line_order].
+Qed.
+Print Assumptions c09_line_parsers_are_source.
